@@ -27,4 +27,21 @@ theorem condSite_warn (c : Bool) (t : Tag) (s : St) :
 theorem condSite_fail (c : Bool) (t : Tag) (s : St) :
     condSite c .fail t s = (if c then (.error t, s) else (.ok (), s)) := by cases c <;> simp
 
+theorem M.bind_pure_id {α} (m : M α) : (m >>= fun b => (pure b : M α)) = m := by
+  funext s
+  simp only [M.bind_def]
+  cases m s with
+  | mk r s' => cases r <;> rfl
+
+/-- the second, detecting parse only exists under the ignore syntax policy -/
+theorem newWarcFieldsBlock_not_ignore (o : Opts) (c : Bytes) (fault : Bool) (bd : Digest) (h : o.syn ≠ .ignore) :
+    newWarcFieldsBlock o c fault bd =
+      (condSite fault o.syn .reader >>= fun _ => wfFinish o.blk o.fixWarcFieldsBlockErrors c bd (parseFields o.syn ⟨c, false⟩)) := by
+  unfold newWarcFieldsBlock
+  have : (o.syn == Pol.ignore) = false := by cases hs : o.syn <;> simp_all
+  simp only [this, Bool.and_false, Bool.false_eq_true, ↓reduceIte]
+  congr 1
+  funext _
+  exact M.bind_pure_id _
+
 end Gowarc
